@@ -529,6 +529,33 @@ pub proof fn lemma_finish_rollback(hs: Seq<Hunk<&[u8]>>, d: PatchDirection, c: S
     }
 }
 
+/// ordering and shape of the applied hunks depend only on line and fuzz, which the splice phase does not touch
+pub proof fn lemma_finish_shape(c: Seq<Seq<u8>>, hs: Seq<Hunk<&[u8]>>, d: PatchDirection, reps: Seq<HunkApplyReport>, fin: Seq<HunkApplyReport>)
+    requires
+        same_but_rollback_line(reps, fin, hs.len() as int),
+        cores_ordered(c.len() as int, hs, d, reps, hs.len() as int),
+        reports_shape(hs, d, reps, hs.len() as int),
+    ensures
+        cores_ordered(c.len() as int, hs, d, fin, hs.len() as int),
+        reports_shape(hs, d, fin, hs.len() as int),
+{
+    let n = hs.len() as int;
+    assert forall|i: int| 0 <= i < n && (#[trigger] fin[i]) is Applied implies {
+        &&& sp_pos(hs, d, fin, i) <= rep_core_start(hs[i], fin[i])
+        &&& rep_core_start(hs[i], fin[i]) <= rep_core_end(hs[i], d, fin[i])
+        &&& rep_core_end(hs[i], d, fin[i]) <= c.len() } by {
+        assert forall|m: int| 0 <= m < i implies norm(#[trigger] reps[m]) == norm(fin[m]) by { assert(norm(fin[m]) == norm(reps[m])); }
+        lemma_norm_state(c, hs, d, reps, fin, i);
+        assert(norm(fin[i]) == norm(reps[i]));
+        assert(reps[i] is Applied);
+    }
+    assert forall|i: int| 0 <= i < n && (#[trigger] fin[i]) is Applied implies
+        norm(fin[i]) == applied_report(hs[i], d, fin[i]->fuzz as int, fin[i]->line as int) && -BIG() < fin[i]->line < BIG() by {
+        assert(norm(fin[i]) == norm(reps[i]));
+        assert(reps[i] is Applied);
+    }
+}
+
 pub proof fn lemma_finish_content(c: Seq<Seq<u8>>, hs: Seq<Hunk<&[u8]>>, d: PatchDirection, reps: Seq<HunkApplyReport>, fin: Seq<HunkApplyReport>,
                                   content: Seq<Seq<u8>>)
     requires
